@@ -44,6 +44,48 @@ package appctl
 //@     modifies nothing
 //@     invariant -1 <= rangeindex__3 && rangeindex__3 < 9223372036854775807
 
+//@ // The client-side merge obeys the same law (C20): every scalar or singular setting of the
+//@ // stored configuration is the patch's if the patch sets it and the stored one otherwise,
+//@ // setting by setting (the profile list is merged by name through maps and is not stated).
+//@ func mergeClientConfigByProfile(dst *pb.ClientConfig, src *pb.ClientConfig)
+//@   property C20
+//@   mode int
+//@   noframe
+//@   requires dst != nil && src != nil && dst != src
+//@   ensures old(src.RpcPort) != nil ==> dst.RpcPort == old(src.RpcPort)
+//@   ensures old(src.RpcPort) == nil ==> dst.RpcPort == old(dst.RpcPort)
+//@   ensures old(src.AdvancedSettings) != nil ==> dst.AdvancedSettings == old(src.AdvancedSettings)
+//@   ensures old(src.AdvancedSettings) == nil ==> dst.AdvancedSettings == old(dst.AdvancedSettings)
+//@   ensures old(src.Socks5ListenLAN) != nil ==> dst.Socks5ListenLAN == old(src.Socks5ListenLAN)
+//@   ensures old(src.Socks5ListenLAN) == nil ==> dst.Socks5ListenLAN == old(dst.Socks5ListenLAN)
+//@   ensures old(src.HttpProxyPort) != nil ==> dst.HttpProxyPort == old(src.HttpProxyPort)
+//@   ensures old(src.HttpProxyPort) == nil ==> dst.HttpProxyPort == old(dst.HttpProxyPort)
+//@   ensures old(src.HttpProxyListenLAN) != nil ==> dst.HttpProxyListenLAN == old(src.HttpProxyListenLAN)
+//@   ensures old(src.HttpProxyListenLAN) == nil ==> dst.HttpProxyListenLAN == old(dst.HttpProxyListenLAN)
+//@   ensures dst.Socks5Port != nil && (old(src.Socks5Port) != nil ==> *dst.Socks5Port == old(*src.Socks5Port)) && (old(src.Socks5Port) == nil && old(dst.Socks5Port) != nil ==> *dst.Socks5Port == old(*dst.Socks5Port))
+//@   ensures dst.LoggingLevel != nil && (old(src.LoggingLevel) != nil ==> *dst.LoggingLevel == old(*src.LoggingLevel)) && (old(src.LoggingLevel) == nil && old(dst.LoggingLevel) != nil ==> *dst.LoggingLevel == old(*dst.LoggingLevel))
+//@   ensures dst.ActiveProfile != nil && (old(src.ActiveProfile) != nil ==> *dst.ActiveProfile == old(*src.ActiveProfile)) && (old(src.ActiveProfile) == nil && old(dst.ActiveProfile) != nil ==> *dst.ActiveProfile == old(*dst.ActiveProfile))
+//@   ensures old(src.Socks5Authentication) != nil ==> dst.Socks5Authentication == old(src.Socks5Authentication)
+//@   ensures old(src.Socks5Authentication) == nil ==> dst.Socks5Authentication == old(dst.Socks5Authentication)
+//@   loop 1:
+//@     modifies nothing
+//@     invariant -1 <= rangeindex && rangeindex < 9223372036854775807
+//@   loop 2:
+//@     modifies nothing
+//@     invariant -1 <= rangeindex__2 && rangeindex__2 < 9223372036854775807
+//@   loop 3:
+//@     modifies nothing
+//@     invariant true
+//@   loop 4:
+//@     modifies nothing
+//@     invariant true
+//@   loop 5:
+//@     modifies nothing
+//@     invariant true
+//@   loop 6:
+//@     modifies nothing
+//@     invariant -1 <= rangeindex__3 && rangeindex__3 < 9223372036854775807
+
 //@ // Import of a share link (C20): a port range is refused only for the reason the message
 //@ // gives - in particular a single-port range (begin == end), which validation accepts and
 //@ // export produces, is not refused.
